@@ -173,6 +173,10 @@ static void run_case(Ctx& c, uint64_t idx) {
     if (idx % 3 == 0) run<ApiW>(c, S, B, gen);
     if (idx % 5000 == 11) c.sample(gen, esc(S) + " relative to " + esc(B));
 }
-static Monitor mon = {"shorten", "C10: reference creation is the inverse of resolution (round trip via library and model)", "C10", ncases, run_case, nullptr};
+static void fuzz_one(Ctx& c, const unsigned char* d, size_t n) {
+    if (n > 400) n = 400; Str S, B; fuzz_split2(d, n, &S, &B);
+    run<ApiA>(c, S, B, "fuzz"); if (n & 1) run<ApiW>(c, S, B, "fuzz");
+}
+static Monitor mon = {"shorten", "C10: reference creation is the inverse of resolution (round trip via library and model)", "C10", ncases, run_case, nullptr, fuzz_one};
 VF_REGISTER(mon);
 }
